@@ -349,6 +349,9 @@ def body(chk, db, cfgname):
 
     # ------------------------------------------------------------------ R6
     r6 = chk.rule("C20-R6", "terms are stored by order and retrievable; copies define the same model", "F1 dominance", 4)
+    # user-written copy constructors of the lattice classes take over every member (a copy is the same model)
+    from checks.lehmann import check_copy_ctors_complete
+    check_copy_ctors_complete(r6, db, cfgname, ("Pomerol::Lattice", "Pomerol::Lattice::Term", "Pomerol::Lattice::TermStorage", "Pomerol::Lattice::Site"))
     g = db.fn("Pomerol::Lattice::TermStorage::addTerm", nparams=1)
     gctx = ctx_of(g)
     Tk = ("param", g.params[0]["d"], g.params[0]["n"])
